@@ -169,6 +169,10 @@ class C13(Base):
             yield "unesc " + hx(self.gen_wellformed(rng, rng.choice([20, 40, 80, 150])))
         for _ in range(50 if quick else 2000):
             yield "unesc " + hx("".join(self.gen_escape(rng) for _ in range(rng.choice([9, 16, 17, 33, 64, 65, 130]))))
+        # THOUSANDS of escapes (a decoder that recurses or allocates per escape)
+        for n in ([3000, 40000] if quick else [3000, 40000, 120000, 400000]):
+            yield "unesc " + hx("dir\\\\" * n)
+            yield "unesc " + hx("\\u00e9\u0159" * (n // 2))
         # long runs without escapes, and long runs around a few escapes
         for _ in range(20 if quick else 200):
             n = rng.choice([100, 1000, 20000])
@@ -200,7 +204,7 @@ class C13(Base):
         from .. import core
         s = unhx(case.partition(" ")[2]).decode("utf-8", "replace")
         cs = list(s)
-        if len(cs) < 2:
+        if len(cs) < 2 or len(cs) > 4000:
             return case
         small = core.ddmin(cs, lambda cands: fails(["unesc " + hx("".join(c)) for c in cands]))
         return "unesc " + hx("".join(small))
@@ -238,7 +242,7 @@ class C13(Base):
             return "input without a backslash changed"
         if unhx(wp[1]) != b"[" + out:
             return "writer form %s != '[' + string form %s" % (wp[1], sp[1])
-        if LITERAL_BODY.fullmatch(s) and d.get("f", "na") == "na":
+        if len(inp) <= 8192 and LITERAL_BODY.fullmatch(s) and d.get("f", "na") == "na":      # (long inputs skip the bundle path)
             return "the parser does not admit a string literal whose escapes are all well-formed (\\\\, \\\", \\uXXXX, \\UXXXXXX with hex digits of either case)"
         for k in ("f", "r", "k", "t", "q"):
             v = d.get(k, "na")
